@@ -7,6 +7,8 @@ import (
 	"strings"
 	"sync"
 	"sync/atomic"
+	"syscall"
+	"time"
 
 	"github.com/robfig/soy"
 	"github.com/robfig/soy/ast"
@@ -116,6 +118,23 @@ func mallocsOf(f func()) uint64 {
 	return b.Mallocs - a.Mallocs
 }
 
+// costOf measures what f costs the process: bytes allocated on the heap and processor time (user + system, all
+// threads). Both are properties of the computation; neither is the time of day.
+func costOf(f func()) (bytes uint64, cpu time.Duration) {
+	var a, b runtime.MemStats
+	var ra, rb syscall.Rusage
+	runtime.GC()
+	runtime.ReadMemStats(&a)
+	syscall.Getrusage(syscall.RUSAGE_SELF, &ra)
+	f()
+	syscall.Getrusage(syscall.RUSAGE_SELF, &rb)
+	runtime.ReadMemStats(&b)
+	tv := func(r syscall.Rusage) time.Duration {
+		return time.Duration(r.Utime.Nano() + r.Stime.Nano())
+	}
+	return b.TotalAlloc - a.TotalAlloc, tv(rb) - tv(ra)
+}
+
 func init() {
 	fw.Register(&fw.Prop{
 		ID:    "C05",
@@ -172,10 +191,36 @@ func init() {
 							len(half.Text), mHalf, len(in.Text), mFull)}
 				}
 			}
+			if in.Quarter != "" {
+				// four times the repetitions: about four times the memory and the processor time. Quadratic work shows as
+				// sixteen times. (Bytes and CPU seconds of this process; the slack terms cover what a parse costs at least.)
+				q := in
+				q.Text, q.Quarter = in.Quarter, ""
+				bq, cq := costOf(func() { callParser(q) })
+				bf, cf := costOf(func() { callParser(in) })
+				ctx.Obs("long_run_pairs", 1)
+				ctx.Max("max_bytes_ratio_4n_vs_n", float64(bf)/float64(bq+1))
+				ctx.Max("max_bytes_allocated_per_input_byte", float64(bf)/float64(len(in.Text)+64))
+				if cq > 5*time.Millisecond {
+					ctx.Max("max_cpu_ratio_4n_vs_n", float64(cf)/float64(cq))
+				}
+				if bf > 8*bq+(4<<20) {
+					return fw.Result{Verdict: fw.Violated, Key: "memory-not-proportional:" + in.Entry, Case: fw.Trim(in.Text, 300),
+						Msg: fmt.Sprintf("parsing %d bytes (%s...) allocates %d bytes, parsing the same construct at four times the length (%d bytes) allocates %d bytes (%.1f times as much): the work is not proportional to the input",
+							len(q.Text), fw.Trim(q.Text, 60), bq, len(in.Text), bf, float64(bf)/float64(bq+1))}
+				}
+				if cf > 12*cq+2*time.Second {
+					return fw.Result{Verdict: fw.Violated, Key: "cpu-not-proportional:" + in.Entry, Case: fw.Trim(in.Text, 300),
+						Msg: fmt.Sprintf("parsing %d bytes (%s...) takes %v of processor time, the same construct at four times the length (%d bytes) %v", len(q.Text), fw.Trim(q.Text, 60), cq, len(in.Text), cf)}
+				}
+			}
 			return fw.Result{Verdict: fw.Held}
 		},
 		Floors: func(obs map[string]int64, cells map[string]bool, tier string) []string {
 			var why []string
+			if obs["long_run_pairs"] == 0 {
+				why = append(why, "no long-run pair measured")
+			}
 			if obs["outcome_tree"] == 0 || obs["outcome_error"] == 0 {
 				why = append(why, "both outcomes (tree, error) must be observed")
 			}
